@@ -567,6 +567,11 @@ def run_bfs(chk, ext, depth, inits, tier, k=2):
             return ("error", tuple(map(str, hist)))
         d = bfs.digest(bfs.state_of(st.obj), 10)
         chk.outcome("cache_pattern", (cls,) + tuple(sorted(k for k, v in bfs.state_of(st.obj).items() if v is None)))
+        # non-vacuity is measured on the MODEL side (which combinations of path loss / noise / post
+        # filter / earlier layouts and path losses the histories reached), not on how the
+        # implementation happens to cache
+        chk.outcome("model_pattern", (cls, st.P is None, st.nv is None, st.W is None, st.last_mut,
+                                      len(st.prev_PE) > 0, len(st.prev_layout) > 0))
         model = (str(st.layout), st.NtE and tuple(st.NtE), bfs.digest(st.raw), str(st.P is None),
                  bfs.digest(st.P), bfs.digest(st.E), st.nv, bfs.digest(st.W), st.rng.count)
         return (cls, K, d, model)
@@ -603,7 +608,7 @@ def main(chk):
     run_shards(chk, worker, nshards=min(len(jobs), 16))
     chk.extra["depth"] = depth
     chk.sample({"class": "ExtInt", "history": [["init", "M1", "A", [1]], ["rd", "big_H"], ["pl", "P2"]]})
-    chk.require_outcomes("cache_pattern", 6)
+    chk.require_outcomes("model_pattern", 24)
 
 
 def replay(case, chk):
